@@ -677,6 +677,9 @@ def run_stream(ctx, binp, name, test, n):
             if os.path.exists(p):
                 os.remove(p)
         env = {"VERIF_SEED": ctx.seed, "VERIF_OUT": ctx.work, "VERIF_N": n, "VERIF_SKIP": skip}
+        if name == "latency":
+            # claim audit 2, C18 item 6: the `latval` lines of the committed replay files are READ and run by the stream
+            env["VERIF_LATVAL_FILES"] = ":".join(p for p, _ in latval_replays())
         if hangs >= 2:
             env["VERIF_HANG_OFF"] = "1"   # the hang has its replays; do not wait 5 s for every further occurrence
         rc, out = ctx.run_cmd([binp, "-test.run", test, "-test.count=1", "-test.timeout=900s"], timeout=1000, env=env)
@@ -740,7 +743,9 @@ def run(ctx):
         "TOPIC_NOT_FOUND into permanent warnings and, with one nsqlookupd, into a 502 of the whole listing), so the switch inactiveErrs "
         "is off (tie Tie.AdminAgg.topics_inactive_discards_errors accepts only the committed, unfixed shape). The defect is the open "
         "known finding view:inactive-drops-errors again (inactive_drops_errors_this_tree; judged by the oracle on every generated and "
-        "replayed case); inactive_warning / inactive_view_lists are theorems about the PROPOSAL (Fixes.all), not about this tree",
+        "replayed case); inactive_warning / inactive_view_lists are theorems about the PROPOSAL (Fixes.all), not about this tree; "
+        "for this tree: view_no_panic_tree, inactive_view_lists_tree, and tree_view_eq_all (view Fixes.tree = view Fixes.all for "
+        "every request other than `?inactive=true`, Proofs.AggregateTree) which carries the other Fixes.all theorems over",
         "counter_view_from_upstreams states the counter map relative to the channel map of GetNSQDStats (itself described by "
         "channels_merge over the upstreams' answers); that two different (topic, channel) pairs never share a key "
         "`topic:channel` (names without ':') is not proved and not needed for the statement as given",
@@ -819,6 +824,13 @@ def run(ctx):
                 ctx.violation(finding_key(site),
                               "nsqadmin died (%s in %s) while serving the %s view" % (what, site, req_key(op)),
                               "op: %s\n\n%s\n" % (op, trace))
+            if name == "latency" and not err:
+                for rp, ls in latval_replays():
+                    for l in ls:
+                        if l not in ops:
+                            ctx.broken_ties.append("replay file %s: the case `%s` was not run by the latency stream" % (
+                                os.path.relpath(rp, ROOT), l))
+                ctx.corr["latval_replay_lines_run"] = sum(len(ls) for _, ls in latval_replays())
             opsp = os.path.join(ctx.work, name + ".all.ops")
             with open(opsp, "w") as fh:
                 fh.write("\n".join(ops) + ("\n" if ops else ""))
@@ -869,6 +881,26 @@ def run(ctx):
         ctx.broken_without_input(ctx.broken_ties + corr_broken,
                                  "search: %d generated cases; the direct oracle found no wrong status, union or sum and the "
                                  "process stayed alive" % ctx.evaluations)
+
+
+def latval_replays():
+    """[(path, [latval lines])] of the committed replay files (fixed and open findings of C18) that hold `latval` lines:
+    these are not `view` ops (replay_known skips them); the latency stream reads the files (VERIF_LATVAL_FILES) and run()
+    checks that every such line was executed."""
+    kf = os.path.join(ROOT, "known_findings.d", "C18.json")
+    out = []
+    if not os.path.exists(kf):
+        return out
+    d = json.load(open(kf))
+    for status in ("fixed", "open"):
+        for ent in d.get(status, []):
+            rp = os.path.join(ROOT, ent.get("replay", ""))
+            if ent.get("property") != "C18" or not os.path.isfile(rp):
+                continue
+            ls = [" ".join(l.split()) for l in open(rp).read().splitlines() if l.startswith("latval ")]
+            if ls:
+                out.append((rp, ls))
+    return out
 
 
 def replay_known(ctx, binp):
